@@ -220,6 +220,8 @@ def run(ctx):
     quotaprobes.callback_leg(ctx, runner, "cpu")
     # scanning library calls must charge CPU that grows with the work they do
     quotaprobes.cpu_amplify_leg(ctx, runner, ctx.tier == "thorough")
+    # size-taking calls that are not pattern scans: charged CPU + memory grows with the work, killed under small limits
+    quotaprobes.work_amplify_leg(ctx, runner)
 
 
 def replay(ctx, path):
